@@ -68,6 +68,11 @@ def gen(seed: int, tier: str, idx=None):
     g.emit({"op": "add_table", "d": 0, "s": 0, "rows": rows, "cols": cols, "hr": hr, "hc": hc, "name": "Twin"})
     steps = rng0.randint(8, 36 if tier == "thorough" else 26)
     weights = {"twin_write": 10, "twin_other": 5, "bad_pos": 10, "lower": 2, "read": 3, "iter": 10, "struct": 3, "save": 2, "restart": 2}
+    if substream(seed, "addr-merges").random() < 0.4:
+        # merged ranges in both twins: iteration and cell() must reach the placeholders that merge_cells created
+        weights["merge"] = 2
+        cfg["aspects"] = ["grid", "names", "merges"]
+        g.ms.aspects = set(cfg["aspects"])
     names, wts = list(weights), list(weights.values())
     # stratified prefix: the first ops of run idx cover (method, bad class) pairs round-robin
     if idx is not None:
@@ -125,6 +130,17 @@ def gen(seed: int, tier: str, idx=None):
                 if b is not None:
                     o[k] = b
             g.emit(o)
+        elif kind == "merge":
+            from dsim.profiles.merge import gen_rect
+
+            if rng.random() < 0.5:
+                # iterate first: whatever the iteration remembers must not outlive the merge
+                g.emit({"op": "iter", "d": 0, "s": 0, "t": rng.randrange(2), "which": rng.choice(["rows", "cols"]), "values_only": rng.random() < 0.4})
+            rect = gen_rect(g, tm, rng)
+            for t in (0, 1):
+                g.emit({"op": "merge", "d": 0, "s": 0, "t": t, "rects": [rect]})
+            if rng.random() < 0.7:
+                g.emit({"op": "iter", "d": 0, "s": 0, "t": rng.randrange(2), "which": rng.choice(["cols", "cols", "rows"]), "values_only": rng.random() < 0.4})
         elif kind == "struct":
             opn = rng.choice(["add_row", "add_col", "del_row", "del_col", "del_row", "del_col"])
             o = {"op": opn, "d": 0, "s": 0, "n": rng.choice([1, 1, 2, 3])}
